@@ -644,3 +644,63 @@ func c14r10(c *Ctx, r *Report) {
 	}
 	r.floor("divisions by a difference", n, 2)
 }
+
+// c09r9: util.Constrain(v, lo, hi) returns hi when hi < lo. Where the list cursor is clamped to the result
+// list the upper bound is Length()-1, which is -1 for an empty list; the clamp in constrain() wraps it in
+// util.Max(0, ·), its sibling in vset did not (D26: any navigation action on an empty result list left
+// cy == -1, currentItem() then reports no current line even after the list has filled again, and accept
+// prints nothing and exits 1 until the renderer happens to repair the cursor).
+func c09r9(c *Ctx, r *Report) {
+	l := c.L
+	r.rule("C09-R9", "E (sibling agreement of the two clamps)", "P1",
+		"every util.Constrain result stored into Terminal.cy has the constant 0 as its lower bound and an upper bound that cannot be below it: a util.Max with a constant 0 operand, or a non-negative constant",
+		"the list cursor becomes -1 on an empty list and stays there when results arrive: no current line, accept prints nothing and exits 1")
+	fCy := l.Field("fzf", "Terminal", "cy")
+	if fCy == nil {
+		r.unest("anchors", token.NoPos, nil, "anchor Terminal.cy", "cannot resolve")
+		return
+	}
+	n := 0
+	for _, fn := range l.AllFuncs() {
+		if fn.Blocks == nil || fn.Pkg != l.pkg("fzf") {
+			continue
+		}
+		k := 0
+		eachInstr(fn, func(in ssa.Instruction) {
+			st, ok := in.(*ssa.Store)
+			if !ok {
+				return
+			}
+			if fld, _ := fieldOf(st.Addr); fld != fCy {
+				return
+			}
+			call, ok := st.Val.(*ssa.Call)
+			if !ok || calleeName(call.Common()) != modPath+"/src/util.Constrain" {
+				return
+			}
+			n++
+			k++
+			lo, hi := call.Call.Args[1], call.Call.Args[2]
+			okHi := false
+			if kk, isK := constIntVal(hi); isK && kk >= 0 {
+				okHi = true
+			}
+			if mc, isCall := hi.(*ssa.Call); isCall && calleeName(mc.Common()) == modPath+"/src/util.Max" {
+				for _, a := range mc.Call.Args {
+					if isConstInt(a, 0) {
+						okHi = true
+					}
+				}
+			}
+			why := ""
+			switch {
+			case !isConstInt(lo, 0):
+				why = "the lower bound is not the constant 0"
+			case !okHi:
+				why = "the upper bound can be -1 (empty list) and Constrain returns the upper bound when it is below the lower one"
+			}
+			r.check(why == "", fmt.Sprintf("%s:clamp of the list cursor #%d", relName(fn), k), st.Pos(), fn, "clamped to [0, max(0, n-1)]", why)
+		})
+	}
+	r.floor("clamps stored into Terminal.cy", n, 2)
+}
